@@ -1,0 +1,54 @@
+//go:build verif
+
+package geom
+
+// Contracts for the GeoJSON writer (C06): every array the writer emits is
+// bracketed, elements are separated by exactly one comma (no comma after the
+// opening bracket, none before the closing one), and empty Points contribute
+// no element to a MultiPoint.
+
+//@ prop C06
+
+// r is d followed by a JSON array: '[' ... ']' with no comma next to the brackets
+//@ pred Kept(r, d) = len(r) > len(d) && ((cap(d) > 0 && region(r) == region(d) && offset(r) == offset(d)) || fresh(r)) && (forall q :: 0 <= q && q < len(d) ==> r[q] == old(d[q]))
+//@ pred Arr(r, d) = Kept(r, d) && len(r) >= len(d) + 2 && r[len(d)] == 91 && r[len(r) - 1] == 93 && r[len(d) + 1] != 44 && r[len(r) - 2] != 44
+
+//@ func appendFloat
+//@   modifies dst
+//@   ensures Kept(result, dst)
+
+//@ func appendGeoJSONCoordinate
+//@   modifies dst
+//@   ensures Kept(result, dst) && len(result) >= len(dst) + 5 && result[len(dst)] == 91 && result[len(result) - 1] == 93
+
+//@ func appendGeoJSONSequence
+//@   modifies dst
+//@   ensures Arr(result, dst)
+//@   loop 0 invariant 0 <= i && i <= n && Kept(dst, old(dst)) && dst[len(old(dst))] == 91 && (i == 0 ==> len(dst) == len(old(dst)) + 1) && (i > 0 ==> len(dst) >= len(old(dst)) + 6 && dst[len(old(dst)) + 1] == 91 && dst[len(dst) - 1] == 93)
+
+//@ prop C06,C16,C20,C10
+//@ func Point.MarshalJSON
+//@   ensures result1 == nil && len(result0) >= 33 && result0[0] == 123 && result0[29] == 58 && result0[30] == 91 && result0[len(result0) - 2] == 93 && result0[len(result0) - 1] == 125
+//@   ensures !p.full ==> len(result0) == 33
+
+// prefix `{"type":"MultiPoint","coordinates":[` is 36 bytes; the opening bracket is byte 35
+//@ func MultiPoint.MarshalJSON
+//@   ensures result1 == nil && len(result0) >= 38 && result0[0] == 123 && result0[35] == 91 && result0[len(result0) - 2] == 93 && result0[len(result0) - 1] == 125
+//@   ensures result0[36] != 44 && result0[len(result0) - 3] != 44
+//@   ensures (forall k :: 0 <= k && k < len(m.points) ==> !m.points[k].full) ==> len(result0) == 38
+//@   loop 0 invariant -1 <= rangeindex && rangeindex < len(m.points) && len(dst) >= 36 && dst[0] == 123 && dst[35] == 91 && (cap(dst) == 0 || fresh(dst))
+//@   loop 0 invariant first <==> (forall k :: 0 <= k && k <= rangeindex ==> !m.points[k].full)
+//@   loop 0 invariant first ==> len(dst) == 36
+//@   loop 0 invariant !first ==> len(dst) >= 41 && dst[36] == 91 && dst[len(dst) - 1] == 93
+//@ prop C06
+
+//@ func appendGeoJSONSequences
+//@   modifies dst
+//@   ensures Arr(result, dst)
+//@   loop 0 invariant -1 <= rangeindex && rangeindex < len(seqs) && Kept(dst, old(dst)) && dst[len(old(dst))] == 91 && (rangeindex == -1 ==> len(dst) == len(old(dst)) + 1) && (rangeindex >= 0 ==> len(dst) >= len(old(dst)) + 3 && dst[len(old(dst)) + 1] == 91 && dst[len(dst) - 1] == 93)
+
+//@ func appendGeoJSONSequenceMatrix
+//@   requires forall i, k :: 0 <= i && i < len(matrix) && 0 <= k && k < len(matrix[i]) ==> SeqInv(matrix[i][k])
+//@   modifies dst
+//@   ensures Arr(result, dst)
+//@   loop 0 invariant -1 <= rangeindex && rangeindex < len(matrix) && Kept(dst, old(dst)) && dst[len(old(dst))] == 91 && (rangeindex == -1 ==> len(dst) == len(old(dst)) + 1) && (rangeindex >= 0 ==> len(dst) >= len(old(dst)) + 3 && dst[len(old(dst)) + 1] == 91 && dst[len(dst) - 1] == 93)
